@@ -291,6 +291,19 @@ pub fn check_output(t: &TaskCtx, out: &str, st: &mut Stats) -> Vec<(String, Stri
         if t.oracles & O_CENSUS != 0 && oi.lex_ok {
             census_oracle(t, &oi, st, &mut f);
         }
+        // ... and the literal oracle, which needs the lexer only; an output that cannot even be tokenised has lost a literal
+        if t.oracles & O_LIT != 0 {
+            *st.oracle_evals.entry("literals").or_insert(0) += 1;
+            if oi.lex_ok {
+                let lits = |v: &Vec<String>| v.iter().filter(|s| s.starts_with("s:") || s.starts_with("n:")).cloned().collect::<Vec<_>>();
+                let (a, b) = (lits(&t.input.tok), lits(&oi.tok));
+                if a != b {
+                    f.push(("literal-value".into(), format!("literal values differ (output does not parse) {}", first_diff(&a, &b))));
+                }
+            } else {
+                f.push(("literal-destroyed".into(), "the output cannot be tokenised (unterminated literal)".into()));
+            }
+        }
         return f;
     }
     if t.oracles & O_NF != 0 && !t.cfg.sort {
